@@ -365,3 +365,313 @@ def near_one(rng, fmt, k=None):
     """1 - k ulps (k = 1..12 by default)"""
     k = k or rng.randint(1, 12)
     return step(fmt, 1.0, -k)
+
+
+# ---------------------------------------------------------------- base rates whose float sum sits in the constructors' band
+BAND_K = [-2, -1, 0, 1, 2, 3, 4]          # check_base_rate / check_simplex accept a sum 1 + k*eps for exactly these k
+
+
+def band_dist(rng, fmt, n, k, den=None):
+    """base rate on the grid 1/den (den <= 64) with ONE positive entry moved by k*eps: every entry, every partial sum in every
+    summation order and the total 1 + k*eps are exact in `fmt` (entries and partial sums below 1 have spacing <= eps/2)."""
+    den = den or rng.choice([2, 4, 8, 16, 64])
+    a = [float(x) for x in rand_dist(rng, n, den)]
+    i = rng.choice([j for j in range(n) if a[j] > 0])
+    a[i] = a[i] + k * EPS[fmt]
+    assert round_fmt(fmt, a[i]) == a[i] and a[i] > 0
+    return a
+
+
+def band_opinion(rng, fmt, n, k, kind=None, den=None):
+    """exact dyadic simplex (kind as in rand_simplex; default: mostly vacuous / high uncertainty) over a band base rate"""
+    kind = kind or rng.choice(["vac", "vac", "int", "any", "hi"])
+    if kind == "hi":
+        # one small mass, uncertainty 1 - 1/den
+        d = rng.choice([4, 8, 16, 64])
+        b = [0.0] * n
+        b[rng.randrange(n)] = 1.0 / d
+        u = 1.0 - 1.0 / d
+    else:
+        b, u = rand_simplex(rng, n, den or rng.choice([4, 8, 16, 64]), kind)
+        b, u = [float(x) for x in b], float(u)
+    return b + [u] + band_dist(rng, fmt, n, k, den)
+
+
+def band_umax_cases(rng, fmt, count):
+    """`umax` with the variant token `acc` under base rates summing to 1 + k*eps (k in -2..4, plus the rejected neighbours -3 and 5
+    as controls): a deterministic part (the vacuous simplex for every k and n = 1..4, every 1-D family; the two-cell witness
+    a = [1/2, 1/2 + 3 eps]) and `count` random cases over the 1-D and the 2-D / 3-D families; then normalised NON-dyadic base
+    rates with 4 cells, where float sums of 1 + 2 eps occur naturally."""
+    out = []
+    e = EPS[fmt]
+    out.append(line("umax", fmt, "A.o.acc", [2], [0.0, 0.0, 1.0, 0.5, 0.5 + 3 * e]))
+    for k in BAND_K + [-3, 5]:
+        for n in (1, 2, 3, 4):
+            w = [0.0] * n + [1.0] + band_dist(rng, fmt, n, k)
+            out.append(line("umax", fmt, rng.choice(FAMS_1D) + ".o.acc", [n], w))
+    for _ in range(count):
+        k = rng.choice(BAND_K + [2, 3, 3, 4, 4])
+        if rng.random() < 0.5:
+            n = rng.choice([1, 2, 2, 3, 3, 4, 4])
+            out.append(line("umax", fmt, rng.choice(FAMS_1D) + ".o.acc", [n], band_opinion(rng, fmt, n, k)))
+        else:
+            fam, sh, n = nd_family(rng, 8)      # the acceptance clause is claimed for at most 8 cells (rounding residue beyond)
+            out.append(line("umax", fmt, fam + ".o.acc", [n] + sh, band_opinion(rng, fmt, n, k)))
+    for _ in range(count):
+        # non-dyadic normalised base rates, 4 cells (1-D and 2x2)
+        a = float_dist(rng, fmt, 4)
+        r = rng.random()
+        if r < 0.4:
+            b, u = [0.0] * 4, 1.0
+        elif r < 0.7:
+            b, u = rand_simplex(rng, 4, rng.choice([4, 8, 16, 64]), rng.choice(["int", "any"]))
+        else:
+            b, u = float_simplex(rng, fmt, 4)
+        w = [float(x) for x in b] + [float(u)] + a
+        if rng.random() < 0.6:
+            out.append(line("umax", fmt, rng.choice(FAMS_1D) + ".o.acc", [4], w))
+        else:
+            out.append(line("umax", fmt, rng.choice("MDN") + "2.o.acc", [4, 2, 2], w))
+    return out
+
+
+def band_ecm_cases(rng, fmt, count):
+    """ECm fusion (`fuse` op 1) with the variant token `acc` of operands whose base rates sum to 1 + k*eps: ONE shared base-rate object,
+    the same object passed twice (`alias`), equal values in two objects, and different base rates; 1-D and 2-D / 3-D families;
+    plus non-dyadic normalised 4-cell base rates (shared)."""
+    out = []
+    for _ in range(count):
+        k = rng.choice(BAND_K + [2, 3, 3, 4, 4])
+        nd = rng.random() < 0.35
+        if nd:
+            fam, sh, n = nd_family(rng, 8)
+        else:
+            fam, sh, n = rng.choice(FAMS_1D), [], rng.choice([1, 2, 2, 3, 3, 4, 4])
+        w1 = band_opinion(rng, fmt, n, k)
+        w2 = band_opinion(rng, fmt, n, rng.choice(BAND_K))
+        r = rng.random()
+        if r < 0.35:
+            out.append(line("fuse", fmt, fam + ".r.acc", [n, 1, 1] + sh, w1 + w2[:n + 1] + w1[n + 1:]))
+        elif r < 0.5:
+            out.append(line("fuse", fmt, fam + "." + rng.choice(["o", "r"]) + ".alias.acc", [n, 1, 0] + sh, w1 + w1))
+        elif r < 0.75:
+            var = fam + rng.choice([".o", ".r", ".o.asg", ".r.asg"]) + ".acc"
+            out.append(line("fuse", fmt, var, [n, 1, 0] + sh, w1 + w2[:n + 1] + w1[n + 1:]))
+        else:
+            var = fam + rng.choice([".o", ".r", ".o.asg", ".r.asg"]) + ".acc"
+            out.append(line("fuse", fmt, var, [n, 1, 0] + sh, w1 + w2))
+    for _ in range(count // 2):
+        a = float_dist(rng, fmt, 4)
+        def sx():
+            r = rng.random()
+            if r < 0.4:
+                return [0.0] * 4 + [1.0]
+            b, u = rand_simplex(rng, 4, rng.choice([4, 8, 16, 64]), rng.choice(["int", "any"]))
+            return [float(x) for x in b] + [float(u)]
+        out.append(line("fuse", fmt, rng.choice(FAMS_1D) + ".r.acc", [4, 1, 1], sx() + a + sx() + a))
+    return out
+
+
+# ---------------------------------------------------------------- products: one small joint base rate (repair abca806)
+# Exactly well-formed dyadic factors with ONE base-rate entry 2^-k and small uncertainties 2^-j.  The candidates
+# (P0*P1 - b0*b1)/(a0*a1) of the products before repair abca806 were differences of two rounded products of order P divided by the
+# joint base rate: rounding noise of relative size eps * P / (a0*a1), of either sign, and min() picked the noisiest cell.
+SMALL_K = {"f32": (8, 20), "f64": (8, 45)}      # exponent range of the small base-rate entry (joint rates stay outside (0, eps])
+SMALL_J = {"f32": (6, 20), "f64": (6, 45)}      # exponent range of the small uncertainties
+
+
+def small_rate_dist(rng, n, k, pos):
+    """exact dyadic base rate: entry `pos` is 2^-k, the others are dyadic and positive, total exactly 1 (every entry a multiple of 2^-k)"""
+    t = Fr(1, 2 ** k)
+    rest = []
+    left = 1 - t
+    for _ in range(n - 2):
+        c = rng.choice([Fr(1, 2), Fr(1, 4), Fr(1, 8), Fr(1, 2 ** rng.randint(3, max(3, min(k, 12))))])
+        while c >= left:
+            c /= 2
+        rest.append(c)
+        left -= c
+    rest.append(left)
+    rng.shuffle(rest)
+    return rest[:pos] + [t] + rest[pos:]
+
+
+def small_u_simplex(rng, n, j, pos, heavy=True):
+    """exact dyadic simplex on the grid 1/8 with u = 2^-j (j = None: dogmatic) taken out of one mass; with `heavy` the entry `pos`
+    (the one the small base rate sits on: r = b/a is large there) carries at least half of the mass"""
+    for _ in range(100):
+        c = composition(rng, 8, n)
+        if heavy and c[pos] < 4:
+            continue
+        if j is None:
+            return [Fr(x, 8) for x in c], Fr(0)
+        donors = [i for i in range(n) if c[i] > 0 and (i != pos or n == 1)] or [i for i in range(n) if c[i] > 0]
+        i = rng.choice(donors)
+        b = [Fr(x, 8) for x in c]
+        u = Fr(1, 2 ** j)
+        b[i] -= u
+        return b, u
+    b = [Fr(0)] * n
+    b[pos] = Fr(1)
+    return b, Fr(0)
+
+
+def small_rate_factor(rng, fmt, n, kmax=None):
+    """one factor `b[n] u a[n]` (exact Fractions) with a small base-rate entry 2^-k under a heavy mass and a small uncertainty"""
+    kmax = kmax or SMALL_K[fmt][1]
+    k = rng.randint(max(SMALL_K[fmt][0], kmax - 6), kmax) if rng.random() < 0.5 else rng.randint(SMALL_K[fmt][0], kmax)
+    pos = rng.randrange(n)
+    z = rng.random()
+    j = None if z < 0.1 else rng.randint(SMALL_J[fmt][0], 12) if z < 0.4 else rng.randint(SMALL_J[fmt][0], SMALL_J[fmt][1])
+    if z >= 0.7:
+        # a*u = 2^-(k+j) at or just below the last bit of the heavy mass: the projection b + a*u loses it (or rounds it up)
+        mant = 24 if fmt == "f32" else 53
+        j = rng.randint(SMALL_J[fmt][0], 10 if fmt == "f32" else 30)
+        k = min(kmax, max(SMALL_K[fmt][0], mant - j + rng.randint(-2, 3)))
+    b, u = small_u_simplex(rng, n, j, pos, heavy=rng.random() < 0.8)
+    return b + [u] + small_rate_dist(rng, n, k, pos), k
+
+
+def ulp_factor(rng, fmt, n=3):
+    """NON-dyadic factor, well-formed within the constructors' tolerance: small uncertainty 2^-j (1 + r), one base-rate entry 2^-k under
+    a heavy mass; the float sum of its projection is 1 +- 1 ulp for a good part of the draws (then the normalised projections of the
+    old products were all shifted by one ulp, more than the whole numerator a*u of the small cell)"""
+    k = rng.randint(SMALL_K[fmt][0] + 4, min(SMALL_K[fmt][1], 20 if fmt == "f32" else 44))
+    j = rng.randint(SMALL_J[fmt][0], min(SMALL_J[fmt][1], 14 if fmt == "f32" else 40))
+    u = round_fmt(fmt, 2.0 ** -j * (1 + rng.randint(0, 31) / 32.0))
+    xs = [rng.random() for _ in range(n)]
+    pos = rng.randrange(n)
+    xs[pos] += 1.5
+    t = sum(xs)
+    b = [round_fmt(fmt, x / t * (1.0 - u)) for x in xs]
+    a = [rng.random() + 0.05 for _ in range(n)]
+    a[pos] = 0.0
+    t = sum(a)
+    a = [round_fmt(fmt, x / t * (1.0 - 2.0 ** -k)) for x in a]
+    a[pos] = 2.0 ** -k
+    big = max(range(n), key=lambda i: a[i])
+    a[big] = round_fmt(fmt, 1.0 - sum(a[i] for i in range(n) if i != big))
+    return b + [u] + a, k
+
+
+def cancelling_u(fmt, ns, ws):
+    """the joint uncertainty as the products computed it BEFORE repair abca806, evaluated in precision `fmt` (every operation rounded):
+    min over the cells of positive joint base rate of (P - B)/A, P the product of the NORMALISED projections"""
+    ws = [[float(x) for x in w] for w in ws]
+    ps = []
+    for w, n in zip(ws, ns):
+        p = [round_fmt(fmt, w[i] + round_fmt(fmt, w[n + 1 + i] * w[n])) for i in range(n)]
+        t = 0.0
+        for x in p:
+            t = round_fmt(fmt, t + x)
+        ps.append([round_fmt(fmt, x / t) for x in p])
+    best = None
+    for idx in itertools.product(*[range(n) for n in ns]):
+        P = B = A = None
+        for f, i in enumerate(idx):
+            n = ns[f]
+            if P is None:
+                P, B, A = ps[f][i], ws[f][i], ws[f][n + 1 + i]
+            else:
+                P, B, A = round_fmt(fmt, P * ps[f][i]), round_fmt(fmt, B * ws[f][i]), round_fmt(fmt, A * ws[f][n + 1 + i])
+        if A > 0:
+            c = round_fmt(fmt, round_fmt(fmt, P - B) / A)
+            best = c if best is None or c < best else best
+    return best
+
+
+def exact_u(ns, ws):
+    """the same minimum in exact arithmetic, from the un-normalised projections b + a*u"""
+    best = None
+    for idx in itertools.product(*[range(n) for n in ns]):
+        P = B = A = Fr(1)
+        for f, i in enumerate(idx):
+            n, w = ns[f], ws[f]
+            P *= Fr(w[i]) + Fr(w[n + 1 + i]) * Fr(w[n])
+            B *= Fr(w[i])
+            A *= Fr(w[n + 1 + i])
+        if A > 0:
+            c = (P - B) / A
+            best = c if best is None or c < best else best
+    return best
+
+
+def cancellation_hazard(fmt, ns, ws):
+    """does the cancelling evaluation of (P - B)/A in precision `fmt` miss the exact joint uncertainty by more than the oracles'
+    tolerance (16 tau) on these factors?  (emulation of the formula of the products before repair abca806; used to steer the
+    small-base-rate stream towards the operands on which a cancelling re-implementation is visibly wrong)"""
+    c = cancelling_u(fmt, ns, ws)
+    return c is not None and c == c and abs(Fr(c) - exact_u(ns, ws)) > 16 * TAU_SPEC[fmt]
+
+
+def small_rate_factors(rng, fmt, arity, hazard=False):
+    """(ns, [factor ...]) for a product of `arity` factors: ONE small-rate factor (dyadic, or the non-dyadic `ulp_factor`), the others
+    dogmatic / nearly dogmatic (u within a few powers of two of machine epsilon: the noise of the small cell competes with r0*u1) /
+    ordinary dyadic factors with positive base rates (sometimes with a small entry of their own); every positive joint base rate is
+    larger than machine epsilon (the oracles judge the exact identities outside the (0, eps] band only).  With `hazard` the draw is
+    repeated (at most 40 times) until `cancellation_hazard` holds."""
+    for _ in range(40 if hazard else 1):
+        ns, ws = _small_rate_factors(rng, fmt, arity)
+        if not hazard or cancellation_hazard(fmt, ns, ws):
+            break
+    return ns, ws
+
+
+def _small_rate_factors(rng, fmt, arity):
+    eps = Fr(EPS[fmt])
+    for _ in range(200):
+        ns = [rng.choice([2, 2, 3]) for _ in range(arity)]
+        lead = rng.randrange(arity)
+        ws = [None] * arity
+        if rng.random() < 0.25:
+            ns[lead] = 3
+            ws[lead], k = ulp_factor(rng, fmt, 3)
+        else:
+            ws[lead], k = small_rate_factor(rng, fmt, ns[lead])
+        for i in range(arity):
+            if i == lead:
+                continue
+            n = ns[i]
+            z = rng.random() * (0.7 if arity > 2 else 1.0)      # three factors: both others (nearly) dogmatic more often
+            if z < 0.5:         # dogmatic, dyadic masses
+                b, u = rand_simplex(rng, n, rng.choice([2, 4, 8, 16]), "dog")
+            elif z < 0.8:       # nearly dogmatic: u = 2^-j within a few powers of two of machine epsilon
+                b, u = small_u_simplex(rng, n, rng.randint(SMALL_J[fmt][1] - 4, SMALL_J[fmt][1] + 2), rng.randrange(n), heavy=False)
+            else:
+                b, u = rand_simplex(rng, n, rng.choice([4, 8, 16]), rand_kind(rng))
+            z = rng.random() * (0.6 if arity > 2 else 1.0)
+            if z < 0.3:
+                a = [Fr(1, n)] * n if n == 2 else [Fr(1, 2), Fr(1, 4), Fr(1, 4)]
+            elif z < 0.5:
+                room = SMALL_K[fmt][1] + (2 if fmt == "f32" else 6) - k
+                if room >= 4:
+                    a = small_rate_dist(rng, n, rng.randint(2, min(room, 12)), rng.randrange(n))
+                else:
+                    a = rand_dist(rng, n, 8, positive=True)
+            else:
+                a = rand_dist(rng, n, rng.choice([4, 8, 16]), positive=rng.random() < 0.85)
+            ws[i] = list(b) + [u] + list(a)
+        joint = [Fr(1)]
+        for w, n in zip(ws, ns):
+            joint = [x * Fr(y) for x in joint for y in w[n + 1:]]
+        if all(x == 0 or x > eps for x in joint) and any(x > 0 for x in joint):
+            return ns, ws
+    ns = [2] * arity
+    return ns, [[Fr(7, 8), Fr(1, 8) - Fr(1, 4096), Fr(1, 4096), Fr(1, 8192), 1 - Fr(1, 8192)]] + \
+        [[Fr(1, 2), Fr(1, 2), Fr(0), Fr(1, 2), Fr(1, 2)]] * (arity - 1)
+
+
+# witnesses of the products before repair abca806 (git log of /repo abca806): (fmt, ns, [factor ...], what the old code returned)
+def _f32(*bits):
+    return [bits_to_float("f32", x) for x in bits]
+
+
+PRODUCT_WITNESSES = [
+    ("f32", [2, 2], [[0.875, 0.125 - 2.0 ** -12, 2.0 ** -12, 2.0 ** -13, 1 - 2.0 ** -13], [0.5, 0.5, 0.0, 0.5, 0.5]],
+     "u = 0, required 2^-12"),
+    ("f32", [3, 2], [_f32(0x3f44eeea, 0x3e02c788, 0x3dd275a0, 0x39840000, 0x39000000, 0x3f484440, 0x3e5ecf00),
+                     [0.5, 0.5, 0.0, 2.0 ** -8, 1 - 2.0 ** -8]], "labelled u = -1/16, unlabelled panic"),
+    ("f64", [3, 3], [[0.5, 0.25, 0.25, 0.0, 0.5, 0.25, 0.25],
+                     [0.68505859375, 0.0, 0.3125, 0.00244140625, 2.0 ** -31, 1 - 2.0 ** -31 - 2.0 ** -45, 2.0 ** -45]],
+     "u depends on the order in which the values of the second domain are listed"),
+]
